@@ -34,19 +34,33 @@ func TestVerifBattery(t *testing.T) {
 		t.Fatal(err)
 	}
 	for _, c := range f.Cases {
+		if c.Kind == "field-limbs" {
+			vFieldLimbs(t, c)
+			continue
+		}
 		if c.Kind != "field-battery" {
 			continue
 		}
 		seed, _ := strconv.Atoi(c.Op)
 		rng := rand.New(rand.NewSource(int64(seed) + 1))
 		one := big.NewInt(1)
+		bad := func(format string, a ...interface{}) { t.Errorf("MISMATCH kind=field-battery: "+format, a...) }
 		vals := []*big.Int{big.NewInt(0), one, big.NewInt(2), new(big.Int).Sub(vM, one), new(big.Int).Sub(vM, big.NewInt(2)),
 			new(big.Int).Lsh(one, 64), new(big.Int).Lsh(one, 128), new(big.Int).Lsh(one, 192), new(big.Int).Lsh(one, 255),
 			new(big.Int).Sub(new(big.Int).Lsh(one, 64), one), big.NewInt(11), big.NewInt(7)}
 		for i := 0; i < 12; i++ {
 			vals = append(vals, new(big.Int).Rand(rng, vM))
 		}
-		bad := func(format string, a ...interface{}) { t.Errorf("MISMATCH kind=field-battery: "+format, a...) }
+		// values whose MONTGOMERY limbs are sparse (words with zero halves, single non-zero limbs)
+		Rinv := new(big.Int).ModInverse(new(big.Int).Lsh(one, 256), vM)
+		for _, l := range [][4]uint64{{0, 0, 0, 1}, {0, 0, 0, 0xdeadbeef}, {1 << 32, 0, 0, 0}, {0, 1 << 32, 0, 5 << 32}, {0x1000003d1, 0, 0, 7}, {0, 0, 1, 0}, {^uint64(0), 0, 0, 0}, {0, 0, 0, 1 << 63}} {
+			vals = append(vals, new(big.Int).Mod(new(big.Int).Mul(vValOf(l), Rinv), vM))
+		}
+		canon := func(what string, e *Element) {
+			if vValOf(e.E).Cmp(vM) >= 0 {
+				bad("%s leaves a non-canonical stored value %x", what, vValOf(e.E))
+			}
+		}
 		for _, a := range vals {
 			ea := vElemOf(a)
 			if vValue(ea).Cmp(new(big.Int).Mod(a, vM)) != 0 {
@@ -66,9 +80,15 @@ func TestVerifBattery(t *testing.T) {
 			if vValue(inv).Cmp(want) != 0 {
 				bad("Invert(%x) = %x want %x", a, vValue(inv), want)
 			}
-			if w := new(big.Int).Mod(new(big.Int).Neg(a), vM); vValue(New().Negate(ea)).Cmp(w) != 0 {
+			ng := New().Negate(ea)
+			if w := new(big.Int).Mod(new(big.Int).Neg(a), vM); vValue(ng).Cmp(w) != 0 {
 				bad("Negate(%x)", a)
 			}
+			canon("Negate", ng)
+			if (ng.IsZero() == 1) != (a.Sign() == 0) || (ng.Equals(vElemOf(big.NewInt(0))) == 1) != (a.Sign() == 0) {
+				bad("IsZero/Equals(Negate(%x)) inconsistent with the value", a)
+			}
+			canon("Invert", inv)
 			if w := new(big.Int).Mod(new(big.Int).Mul(a, a), vM); vValue(New().Square(ea)).Cmp(w) != 0 {
 				bad("Square(%x)", a)
 			}
@@ -79,6 +99,7 @@ func TestVerifBattery(t *testing.T) {
 					if vValue(got).Cmp(w) != 0 {
 						bad("%s(%x,%x) = %x want %x", name, a, b, vValue(got), w)
 					}
+					canon(name, got)
 				}
 				chk("Add", New().Add(ea, eb), new(big.Int).Add(a, b))
 				chk("Subtract", New().Subtract(ea, eb), new(big.Int).Sub(a, b))
@@ -91,6 +112,18 @@ func TestVerifBattery(t *testing.T) {
 				}
 				if b.Sign() != 0 {
 					// sqrt_ratio(a, b)
+					for alias := 1; alias <= 2; alias++ {
+						u2, v2 := vElemOf(a), vElemOf(b)
+						recv := u2
+						if alias == 2 {
+							recv = v2
+						}
+						ya, oka := recv.SqrtRatio(u2, v2)
+						yf, okf := New().SqrtRatio(vElemOf(a), vElemOf(b))
+						if oka != okf || vValue(ya).Cmp(vValue(yf)) != 0 {
+							bad("SqrtRatio(%x,%x) with the receiver aliasing operand %d differs from the unaliased call", a, b, alias)
+						}
+					}
 					y, ok := New().SqrtRatio(ea, eb)
 					ratio := new(big.Int).Mul(a, new(big.Int).ModInverse(b, vM))
 					ratio.Mod(ratio, vM)
@@ -149,5 +182,63 @@ func TestVerifBattery(t *testing.T) {
 				bad("HashToFieldElement(%x)", w)
 			}
 		}
+	}
+}
+
+// vFieldLimbs replays one Element method on operands given by their Montgomery limbs (solver model).
+func vFieldLimbs(t *testing.T, c vCase) {
+	R := new(big.Int).Lsh(big.NewInt(1), 256)
+	Ri := new(big.Int).ModInverse(R, vM)
+	val := func(l [4]uint64) *big.Int { return new(big.Int).Mod(new(big.Int).Mul(vValOf(l), Ri), vM) }
+	la, lb := vLimbsOf(c.A), vLimbsOf(c.B)
+	ea, eb := &Element{E: la}, &Element{E: lb}
+	a, b := val(la), val(lb)
+	bad := func(format string, x ...interface{}) { t.Errorf("MISMATCH kind=field-limbs op="+c.Op+": "+format, x...) }
+	res := New()
+	var want *big.Int
+	switch c.Op {
+	case "Add":
+		res.Add(ea, eb)
+		want = new(big.Int).Add(a, b)
+	case "Subtract":
+		res.Subtract(ea, eb)
+		want = new(big.Int).Sub(a, b)
+	case "Multiply":
+		res.Multiply(ea, eb)
+		want = new(big.Int).Mul(a, b)
+	case "Negate":
+		res.Negate(ea)
+		want = new(big.Int).Neg(a)
+	case "Square":
+		res.Square(ea)
+		want = new(big.Int).Mul(a, a)
+	case "IsZero":
+		if (ea.IsZero() == 1) != (a.Sign() == 0) {
+			bad("IsZero(limbs %s) = %d but the value is %x", c.A, ea.IsZero(), a)
+		}
+		return
+	case "Equals":
+		if (ea.Equals(eb) == 1) != (a.Cmp(b) == 0) {
+			bad("Equals(limbs %s, %s) = %d", c.A, c.B, ea.Equals(eb))
+		}
+		return
+	case "Sgn0":
+		if ea.Sgn0() != uint64(a.Bit(0)) {
+			bad("Sgn0(limbs %s) = %d, value %x", c.A, ea.Sgn0(), a)
+		}
+		return
+	case "Bytes":
+		var out [32]byte
+		a.FillBytes(out[:])
+		if !bytes.Equal(ea.Bytes(), out[:]) {
+			bad("Bytes(limbs %s) = %x", c.A, ea.Bytes())
+		}
+		return
+	default:
+		return
+	}
+	want.Mod(want, vM)
+	if val(res.E).Cmp(want) != 0 || vValOf(res.E).Cmp(vM) >= 0 {
+		bad("(%s, %s): stored %x (value %x), want value %x canonical", c.A, c.B, vValOf(res.E), val(res.E), want)
 	}
 }
